@@ -414,9 +414,9 @@ def _SqlBatch(d, pos, ctx, lits, values):
     return ([(_Status(e), '', '%s: %s' % (type(e).__name__,
                                           impl.ExcText(e)[:300]))], '', 1)
   ref = program.FormattedPredicateSql('M')
-  if ref.count(MARKER) != 1:
-    raise RuntimeError('marker occurs %d times for %r' % (
-        ref.count(MARKER), (d, pos, ctx)))
+  # mpos = 0 when the marker did not reach the statement at all: TLC then
+  # rejects every record of the batch ("marker-not-emitted-as-one-literal").
+  mpos = ref.index(MARKER) + 1 if MARKER in ref else 0
   res = []
   for i in range(len(lits)):
     try:
@@ -426,7 +426,7 @@ def _SqlBatch(d, pos, ctx, lits, values):
         raise
       res.append((_Status(e), '', '%s: %s' % (type(e).__name__,
                                               impl.ExcText(e)[:300])))
-  return res, ref, ref.index(MARKER) + 1
+  return res, ref, mpos
 
 
 def _SqlTask(task):
